@@ -307,3 +307,121 @@ Example accepted_faithful_facts_hyps :
   eval_clause [] (fun _ => [(1, [num 4])]) (replace_wildcards (rewrite letc)) = Some [(0, [num 9; num 5])]
   /\ eval_fixed f3a f3a_edb = Some [(0, [num 1])].
 Proof. vm_compute. repeat split; reflexivity. Qed.
+
+(* ======================================================================================
+   Built-in predicate atoms with modes (added when the check was strengthened after seeding;
+   model: Analysis/BuiltinCheck.v). A built-in goal is a positive atom whose predicate the
+   mode table knows (as in Go: an ast.Atom with Predicate.IsBuiltin()); the statements hold
+   for EVERY mode table tbl, in particular for builtin.Predicates (go_table).
+   ====================================================================================== *)
+From MV Require Import Analysis.BuiltinCheck Analysis.BuiltinCheckProofs.
+
+(* ---- xcheck_conservative / xaccepted_conservative: on clauses without built-in atoms the
+   extended model IS the model the theorems above speak about. *)
+Theorem xaccepted_conservative :
+  forall (tbl : mtable) (c : clause),
+  no_builtin tbl (cbody c) = true ->
+  xcheck tbl c = check c /\ xaccepted tbl c = accepted c.
+Proof. intros tbl c H. split; [exact (xcheck_conservative_lemma tbl c H)|exact (xaccepted_conservative_lemma tbl c H)]. Qed.
+Print Assumptions xaccepted_conservative.
+
+Example xaccepted_conservative_hyps :
+  no_builtin go_table (cbody f3c) = true /\ xaccepted go_table f3c = true.
+Proof. vm_compute. split; reflexivity. Qed.
+
+(* ---- builtin_input_unbound_rejected. cr is the clause CheckRule receives, a a built-in atom of
+   its wildcard-replaced body with mode m, pre the premises to its left. If a variable x occurs in
+   an argument at a "+" place of a (as the argument itself or inside a function application), is
+   not bound by a itself at a "-"/"?" place, and occurs to the left of a in no positive atom of an
+   extensional predicate, no equality and no "-"/"?" place of an earlier built-in (xbinder_vars:
+   nothing to the left can have given it a value), then cr is rejected. A binder further right
+   does not help. *)
+Theorem builtin_input_unbound_rejected :
+  forall (tbl : mtable) (cr : clause) (pre post : list premise) (a : atom) (m : list bmode) (x : Z),
+  cbody (replace_wildcards cr) = pre ++ PAtom a :: post ->
+  tbl (apred a) = Some m ->
+  In x (in_vars m (aargs a)) ->
+  ~ In x (out_vars m (aargs a)) ->
+  ~ In x (flat_map (xbinder_vars tbl) pre) ->
+  xcheck tbl cr = false.
+Proof. intros. eapply builtin_input_unbound_rejected_lemma; eassumption. Qed.
+Print Assumptions builtin_input_unbound_rejected.
+
+(* p0(K,V) :- p7(M), :match_entry(M,K,V).  - the key K has no binder to the left (seeded change C04-3) *)
+Definition me_unbound_key := mkClause (mkAtom 0 [v 1; v 2])
+  [PAtom (mkAtom 7 [v 0]); PAtom (mkAtom b_match_entry [v 0; v 1; v 2])] [].
+(* p0(K,V) :- :match_entry(M,K,V), p7(M), p1(K).  - binders only further right *)
+Definition me_bound_right := mkClause (mkAtom 0 [v 1; v 2])
+  [PAtom (mkAtom b_match_entry [v 0; v 1; v 2]); PAtom (mkAtom 7 [v 0]); PAtom (mkAtom 1 [v 1])] [].
+(* p0(V) :- p7(M), p1(K), :match_entry(M,K,V). *)
+Definition me_ok := mkClause (mkAtom 0 [v 2])
+  [PAtom (mkAtom 7 [v 0]); PAtom (mkAtom 1 [v 1]); PAtom (mkAtom b_match_entry [v 0; v 1; v 2])] [].
+
+Example builtin_input_unbound_rejected_hyps :
+  cbody (replace_wildcards (rewrite me_unbound_key))
+    = [PAtom (mkAtom 7 [v 0])] ++ PAtom (mkAtom b_match_entry [v 0; v 1; v 2]) :: []
+  /\ go_table b_match_entry = Some [MIn; MIn; MOut]
+  /\ In 1 (in_vars [MIn; MIn; MOut] [v 0; v 1; v 2])
+  /\ ~ In 1 (out_vars [MIn; MIn; MOut] [v 0; v 1; v 2])
+  /\ ~ In 1 (flat_map (xbinder_vars go_table) [PAtom (mkAtom 7 [v 0])])
+  /\ xaccepted go_table me_bound_right = false
+  /\ xaccepted go_table me_ok = true.
+Proof.
+  vm_compute. repeat split; try reflexivity.
+  - right. left. reflexivity.
+  - intros [H|[]]. discriminate.
+  - intros [H|[]]. discriminate.
+Qed.
+
+(* with the mode table of seeded change C04-3 (:match_entry (+,?,?)) the model accepts the clause
+   whose key never has a value: the theorem is about the table, the correspondence run ties the
+   table to builtin.Predicates *)
+Theorem match_entry_relaxed_refuted :
+  xaccepted relaxed_table me_unbound_key = true /\ xaccepted go_table me_unbound_key = false.
+Proof. vm_compute. split; reflexivity. Qed.
+
+(* the hypothesis "not bound by the atom itself" cannot be dropped (recorded finding N108):
+   p0(X) :- :list:member(X, fn:list(X, 2)).  is accepted, X is used inside the input argument *)
+Definition n108 := mkClause (mkAtom 0 [v 0])
+  [PAtom (mkAtom b_list_member [v 0; TApp FList [v 0; TConst (num 2)]])] [].
+Example n108_accepted : xaccepted go_table n108 = true /\ In 0 (in_vars [MOut; MIn] (aargs (mkAtom b_list_member [v 0; TApp FList [v 0; TConst (num 2)]]))).
+Proof. vm_compute. split; [reflexivity|left; reflexivity]. Qed.
+
+(* ---- builtin_input_var_unbound_rejected: a PLAIN VARIABLE at a "+" place needs a binder to the
+   left, whatever else the atom does with that variable. *)
+Theorem builtin_input_var_unbound_rejected :
+  forall (tbl : mtable) (cr : clause) (pre post : list premise) (a : atom) (m : list bmode) (i : nat) (x : Z),
+  cbody (replace_wildcards cr) = pre ++ PAtom a :: post ->
+  tbl (apred a) = Some m ->
+  nth_error m i = Some MIn -> nth_error (aargs a) i = Some (TVar x) ->
+  ~ In x (flat_map (xbinder_vars tbl) pre) ->
+  xcheck tbl cr = false.
+Proof. intros. eapply builtin_input_var_unbound_rejected_lemma; eassumption. Qed.
+Print Assumptions builtin_input_var_unbound_rejected.
+
+Example builtin_input_var_unbound_rejected_hyps :
+  nth_error [MIn; MIn; MOut] 1 = Some MIn /\ nth_error [v 0; v 1; v 2] 1 = Some (TVar 1)
+  /\ ~ In 1 (flat_map (xbinder_vars go_table) [PAtom (mkAtom 7 [v 0])]).
+Proof. vm_compute. repeat split; try reflexivity. intros [H|[]]. discriminate. Qed.
+
+(* ---- builtin_output_nonvar_rejected: a "-" place holds a variable (a constant or a function
+   application there is rejected). *)
+Theorem builtin_output_nonvar_rejected :
+  forall (tbl : mtable) (cr : clause) (pre post : list premise) (a : atom) (m : list bmode) (i : nat),
+  cbody (replace_wildcards cr) = pre ++ PAtom a :: post ->
+  tbl (apred a) = Some m ->
+  nth_error m i = Some MOut ->
+  (forall x, nth_error (aargs a) i <> Some (TVar x)) ->
+  xcheck tbl cr = false.
+Proof. intros. eapply builtin_output_nonvar_rejected_lemma; eassumption. Qed.
+Print Assumptions builtin_output_nonvar_rejected.
+
+(* p0(M) :- p7(M), :match_entry(M, 1, 2). *)
+Definition me_const_value := mkClause (mkAtom 0 [v 0])
+  [PAtom (mkAtom 7 [v 0]); PAtom (mkAtom b_match_entry [v 0; TConst (num 1); TConst (num 2)])] [].
+Example builtin_output_nonvar_rejected_hyps :
+  cbody (replace_wildcards (rewrite me_const_value))
+    = [PAtom (mkAtom 7 [v 0])] ++ PAtom (mkAtom b_match_entry [v 0; TConst (num 1); TConst (num 2)]) :: []
+  /\ nth_error [MIn; MIn; MOut] 2 = Some MOut
+  /\ (forall x, nth_error [v 0; TConst (num 1); TConst (num 2)] 2 <> Some (TVar x)).
+Proof. vm_compute. repeat split; try reflexivity. intros x H. discriminate. Qed.
